@@ -18,8 +18,8 @@ pub fn num_cases(ctx: &Ctx) -> u64 {
     match (ctx.mode, ctx.tier) {
         (Mode::Miri, _) => 24,
         (Mode::Asan | Mode::Tsan, _) => 1500,
-        (Mode::Native, Tier::Quick) => 8000,
-        (Mode::Native, Tier::Thorough) => 150_000,
+        (Mode::Native, Tier::Quick) => 12_000,
+        (Mode::Native, Tier::Thorough) => 200_000,
     }
 }
 
